@@ -1333,7 +1333,7 @@ public:
         RegFromBus16(a.GetName(), value);
     }
     void pop_prpage() {
-        regs.prpage = mem.DataRead(regs.sp++);
+        regs.prpage = mem.DataRead(regs.sp++) & 0xF; // prpage is a 4-bit register
     }
     void pop(Px a) {
         u16 h = mem.DataRead(regs.sp++);
